@@ -148,12 +148,19 @@ def lifecycle(ctx, thorough):
             v6 = c["bind"] == "::1"
             tx = _socket.socket(_socket.AF_INET6 if v6 else _socket.AF_INET, _socket.SOCK_DGRAM)
             dst = "::1" if v6 else "127.0.0.1"
-            col = e2e.Collector(ctx, binary, d, sink.port, workers=2, extra_cfg=extra, producer=c["producer"])
+            col = e2e.Collector(ctx, binary, d, sink.port, workers=2, extra_cfg=extra, producer=c["producer"],
+                                stats_format="prometheus" if k % 2 else "restful")
             senders = e2e.Senders(1)
             src = sorted(senders.socks)[0]
             obs = {"case": c}
             try:
                 col.start()
+                # the statistics are served at stats-http-addr (127.0.0.1 here) and nowhere else
+                try:
+                    _socket.create_connection(("127.0.0.2", col.stats_port), timeout=1).close()
+                    obs["stats_elsewhere"] = "127.0.0.2 (%s format)" % col.stats_format
+                except OSError:
+                    pass
                 for proto in ("ipfix", "netflow9", "netflow5", "sflow"):
                     for m in good[proto]:
                         try:
@@ -201,6 +208,8 @@ def judge_lifecycle(ctx, res):
         bad = []
         if o.get("panic"):
             bad.append("it died: " + o["panic"])
+        if o.get("stats_elsewhere"):
+            bad.append("stats-http-addr is 127.0.0.1, the statistics also answer at %s" % o["stats_elsewhere"])
         if o.get("rc") != 0:
             bad.append("exit status %s on SIGTERM (%.1f s)" % (o.get("rc"), o.get("secs") or 0))
         for p in ("ipfix", "netflow9", "netflow5", "sflow"):
@@ -263,7 +272,8 @@ def end_to_end(ctx, thorough, bind=""):
     sink = e2e.Sink()
     sink.start()
     extra = "".join("%s-addr: %s\n" % (p, bind) for p in ("ipfix", "netflow9", "netflow5", "sflow")) if bind else ""
-    col = e2e.Collector(ctx, binary, d, sink.port, workers=4, extra_cfg=extra)
+    # the run with IPv4 sockets also names its cache files relatively and runs in another directory than its configuration's
+    col = e2e.Collector(ctx, binary, d, sink.port, workers=4, extra_cfg=extra, relative_cache=bool(bind))
     senders = e2e.Senders(8)
     srcs = sorted(senders.socks)
     rng = ctx.rng
@@ -290,7 +300,7 @@ def end_to_end(ctx, thorough, bind=""):
                 # an older, much longer file (here: unparsable) is in place: the collector starts with a fresh cache, and the
                 # shorter document it saves at shutdown must replace it completely
                 for f in ("ipfix.templates", "netflow9.templates"):
-                    with open(os.path.join(d, f), "wb") as fh:
+                    with open(os.path.join(col.cache_dir, f), "wb") as fh:
                         fh.write(b'{"Cache":[' + b"x" * 300000)
                 acked = {"ipfix": [], "netflow9": []}
             if cyc == 1:
@@ -448,7 +458,9 @@ def end_to_end(ctx, thorough, bind=""):
                     probe.sendall(b"GET /flow HTTP/1.1\r\nHost: x\r\n")
             except OSError:
                 probe = None
-            rc, secs = col.stop(sig, wait=10)
+            # every third stop the signal comes twice (20 ms or 150 ms apart): the second one changes nothing
+            twice = [0.02, 0.15][cyc % 2] if (cyc + ctx.seed) % 3 == 0 else None
+            rc, secs = col.stop(sig, wait=10, again=twice)
             if probe is not None:
                 try:
                     probe.close()
@@ -457,23 +469,25 @@ def end_to_end(ctx, thorough, bind=""):
             stop_sending.set()
             th.join(timeout=5)
             ctx.count(["shutdown", scenario, cyc, offset, ctx.seed, bind])
-            case = {"cycle": cyc, "scenario": scenario, "signal": sig.name, "offset_s": offset, "bind": bind or "wildcard"}
+            signame = sig.name + (" (sent twice, %d ms apart)" % int(twice * 1000) if twice is not None else "")
+            case = {"cycle": cyc, "scenario": scenario, "signal": signame, "offset_s": offset, "bind": bind or "wildcard", "signal_sent_twice": twice is not None}
             err = col.err_tail(6000)
             if "panic" in err or "fatal error" in err:
-                ctx.violation("the collector panicked on %s (%s traffic): %s" % (sig.name, scenario, err[-700:].replace("\n", " | ")), case, key="e2e-panic")
+                ctx.violation("the collector panicked on %s (%s traffic): %s" % (signame, scenario, err[-700:].replace("\n", " | ")), case, key="e2e-panic")
             elif rc is None:
-                ctx.violation("the collector was still running 10 s after %s (%s traffic)" % (sig.name, scenario), case, key="e2e-hang")
+                ctx.violation("the collector was still running 10 s after %s (%s traffic)" % (signame, scenario), case, key="e2e-hang")
             elif rc != 0:
-                ctx.violation("the collector exited with status %s on %s (%s traffic)" % (rc, sig.name, scenario), case, key="e2e-status")
+                ctx.violation("the collector exited with status %s on %s (%s traffic)" % (rc, signame, scenario), case, key="e2e-status")
             elif secs > 5:
-                ctx.violation("the collector took %.1f s to exit on %s (%s traffic)" % (secs, sig.name, scenario), case, key="e2e-slow")
+                ctx.violation("the collector took %.1f s to exit on %s (%s traffic)" % (secs, signame, scenario), case, key="e2e-slow")
             for f in ("ipfix.templates", "netflow9.templates"):
-                p = os.path.join(d, f)
+                # (a relative name is looked for where the process runs and, failing that, next to its configuration)
+                p = next((x for x in (os.path.join(col.cache_dir, f), os.path.join(d, f)) if os.path.exists(x)), os.path.join(col.cache_dir, f))
                 try:
                     doc = json.load(open(p))
                     assert doc["ShardNo"] == 32 and len(doc["Cache"]) == 32
                 except Exception as e:
-                    ctx.violation("after %s the cache file %s is not a complete document: %s" % (sig.name, f, e), case, key="e2e-cachefile")
+                    ctx.violation("after %s the cache file %s is not a complete document: %s" % (signame, f, e), case, key="e2e-cachefile")
             ctx.extra.setdefault("shutdowns", []).append({"bind": bind or "wildcard", "scenario": scenario, "signal": sig.name, "offset": offset, "exit": rc, "secs": round(secs, 2)})
         ctx.sample({"cycles": cycles, "acknowledged_templates": {k: len(v) for k, v in acked.items()}, "shutdowns": ctx.extra.get("shutdowns")})
     finally:
